@@ -115,6 +115,12 @@ def callMember (w : World) (fromV : Val) (name : String) (args : List Val) : R V
     | none => .error .type_
   | none => .error .type_
 
+/-- a call that `reflect.Call` refuses (arity or argument type) never enters the function: it is a type
+    error and is *not* an evaluated call; a call that enters the function is logged, even if it then panics -/
+def callHappened : R Val → Bool
+  | .error .type_ => false
+  | _ => true
+
 def insertSorted (k : String) (v : Val) : List (String × Val) → List (String × Val)
   | [] => [(k, v)]
   | (k', v') :: rest =>
@@ -253,8 +259,9 @@ def step (c : Cfg) (p : Prog) (s : VM) : RV VM := do
     match cv with
     | .call name size =>
       let (args, s) ← VM.popN size s []
-      let s := { s with log := (name, args) :: s.log }
-      pure (s.push (← liftR s (callMember c.world c.env name args)))
+      let r := callMember c.world c.env name args
+      let s := if callHappened r then { s with log := (name, args) :: s.log } else s
+      pure (s.push (← liftR s r))
     | _ => failV .type_ s
   | .method | .methodNilSafe => do
     let (cv, s) ← readConst p s
@@ -264,8 +271,9 @@ def step (c : Cfg) (p : Prog) (s : VM) : RV VM := do
       let (obj, s) ← s.pop
       if op == .methodNilSafe && obj.isNilLike then pure (s.push .nil)
       else
-        let s := { s with log := (name, args) :: s.log }
-        pure (s.push (← liftR s (callMember c.world obj name args)))
+        let r := callMember c.world obj name args
+        let s := if callHappened r then { s with log := (name, args) :: s.log } else s
+        pure (s.push (← liftR s r))
     | _ => failV .type_ s
   | .array => do
     let (n, s) ← s.pop
@@ -326,7 +334,8 @@ def step (c : Cfg) (p : Prog) (s : VM) : RV VM := do
 /-- the statements of `Run` before the dispatch loop -/
 def prologue (c : Cfg) (s : VM) : VM :=
   { s with limit := c.budget, ip := 0, pp := 0, stack := [], scopes := [],
-           memory := if c.defects.memoryNotReset then s.memory else 0 }
+           memory := if c.defects.memoryNotReset then s.memory else 0,
+           created := 0, log := [] }     -- ghost observables are per run
 
 /-- the dispatch loop; the result is the popped top of stack (nil when the stack is empty) -/
 def loop (c : Cfg) (p : Prog) : Nat → VM → (R Val × VM)
